@@ -5,6 +5,8 @@ import BHS.Model.Header
 import BHS.Spec.BestChain
 import BHS.Model.Query
 import BHS.Model.Interleave
+import BHS.Model.RepoM
+import BHS.Gen.ChainSvc
 
 namespace Driver.Ops.Chain
 open BHS BHS.Chain BHS.Header
@@ -64,6 +66,40 @@ def callName : Pc String → String
   | .writes _ [] => "none"
   | .done _ => "done"
 
+def writeEq : Write String → Write String → Bool
+  | .setState a s, .setState b t => a == b && s == t
+  | .insert a, .insert b => a == b
+  | _, _ => false
+
+def outcomeEq : Outcome String → Outcome String → Bool
+  | .stored a, .stored b => a == b
+  | .duplicate, .duplicate => true
+  | .rejected, .rejected => true
+  | .creationFail, .creationFail => true
+  | _, _ => false
+
+def writesEq : List (Write String) → List (Write String) → Bool
+  | [], [] => true
+  | a :: l, b :: m => writeEq a b && writesEq l m
+  | _, _ => false
+
+/-- run the REGENERATED `Add` (BHS/Gen/ChainSvc.lean, translated from the Go source on every run) on the same store and
+    compare everything observable with the hand model: `none` = they agree (as Props/ChainSvc.lean proves), otherwise the
+    text of the difference. `fail = some k`: the write of index `k` returns an error. -/
+def genMismatch (cfg : Cfg String) (s : Store String) (x : Src String) (fail : Option Nat)
+    (o : Option (Outcome String)) (ws : List (Write String)) (s' : Store String) : Option String :=
+  match observe s fail (BHS.Gen.ChainSvc.Add cfg x) with
+  | .error f => some s!"err:gen-mismatch generated Add panics: {repr f}"
+  | .ok (go, gws, gs) =>
+    let oOk := match o, go with
+      | some a, some b => outcomeEq a b
+      | none, _ => true
+      | _, none => false
+    if !oOk then some s!"err:gen-mismatch outcome generated={(go.map outcomeStr).getD "other-error"}"
+    else if !writesEq ws gws then some s!"err:gen-mismatch writes generated={" | ".intercalate (gws.map writeStr)}"
+    else if gs != s' then some s!"err:gen-mismatch store generated={";".intercalate (gs.map rowStr)}"
+    else none
+
 def handle (st : S) : List String → Option (S × String)
   | ["reset"] => some ({ st with store := [genesisRow] }, "ok")
   | "forbid" :: hs => some ({ st with forbidden := hs }, "ok")
@@ -73,12 +109,18 @@ def handle (st : S) : List String → Option (S × String)
     | some x =>
       let p := plan (cfgOf st) st.store x
       let s' := applyWrites st.store p.2
-      some ({ st with store := s' }, " | ".intercalate (outcomeStr p.1 :: p.2.map writeStr))
+      match genMismatch (cfgOf st) st.store x none (some p.1) p.2 s' with
+      | some diff => some ({ st with store := s' }, diff)
+      | none => some ({ st with store := s' }, " | ".intercalate (outcomeStr p.1 :: p.2.map writeStr))
   | ["crash", k, hex] =>
     match parseHeader hex, k.toNat? with
     | some x, some k =>
       let p := plan (cfgOf st) st.store x
-      some ({ st with store := applyWrites st.store (p.2.take k) }, s!"crashed {min k p.2.length}")
+      let s' := applyWrites st.store (p.2.take k)
+      -- the generated Add with write k failing stops by itself at the same prefix
+      match genMismatch (cfgOf st) st.store x (some k) (if k < p.2.length then none else some p.1) (p.2.take k) s' with
+      | some diff => some ({ st with store := s' }, diff)
+      | none => some ({ st with store := s' }, s!"crashed {min k p.2.length}")
     | _, _ => some (st, "bad-header")
   | ["restart"] => some ({ st with store := insertRow st.store genesisRow }, "ok")
   | ["hashof", hex] =>
